@@ -24,7 +24,10 @@ func init() {
 	})
 }
 
-func runC07(c *eng.Ctx, tier string) {
+func runC07(c *eng.Ctx, tier string) { c07Core(c) }
+
+// c07Core: all rules of C07 (also included by C01, whose statement depends on the matching semantics).
+func c07Core(c *eng.Ctx) {
 	p := c.P
 	match := p.Func("acl", "Secret.Match")
 	if match == nil || len(match.Params) != 2 {
@@ -52,6 +55,18 @@ func runC07(c *eng.Ctx, tier string) {
 			}
 		}
 	})
+	var helper *globHelper
+	if compile == nil && matchCall != nil {
+		if h, handled := c07ViaHelper(c, match, matchCall); handled {
+			helper = h
+			if helper != nil {
+				c07Returns(c, match, matchCall)
+				c07RulesWith(c, helper)
+				c07NoPanic(c)
+			}
+			return
+		}
+	}
 	if compile == nil || matchCall == nil {
 		c.Undecided("R-C07-1", match, match.Pos(), "regexp.Compile/MustCompile and (*Regexp).MatchString in Match", "Match no longer uses package regexp in the recognised way; the glob semantics cannot be decided by template analysis")
 		return
@@ -193,6 +208,15 @@ func runC07(c *eng.Ctx, tier string) {
 	// R-C07-2 template analysis
 	c07Template(c, match, compile, format, wild)
 
+	c07Returns(c, match, matchCall)
+
+	c07Rules(c)
+	c07NoPanic(c)
+}
+
+// c07Returns: R-C07-3.
+func c07Returns(c *eng.Ctx, match *ssa.Function, matchCall *ssa.Call) {
+	pat, val := match.Params[0], match.Params[1]
 	// R-C07-3 returns
 	for _, r := range eng.Returns(match) {
 		rv := eng.RetVals(r)
@@ -217,8 +241,6 @@ func runC07(c *eng.Ctx, tier string) {
 		c.Check(eng.Origin(rv[0]) == ssa.Value(matchCall), "R-C07-3", match, r.Pos(), site, "the result of MatchString on the compiled template", "returns "+eng.ValStr(rv[0]))
 	}
 
-	c07Rules(c)
-	c07NoPanic(c)
 }
 
 func regexpOf(compile *ssa.Call) ssa.Value {
@@ -367,7 +389,9 @@ func existsLoop(c *eng.Ctx, rule string, f *ssa.Function, want string) (*existsS
 	return sum, okAll
 }
 
-func c07Rules(c *eng.Ctx) {
+func c07Rules(c *eng.Ctx) { c07RulesWith(c, nil) }
+
+func c07RulesWith(c *eng.Ctx, helper *globHelper) {
 	p := c.P
 	rulesAllow := p.Func("acl", "Rules.Allow")
 	ruleAllow := p.Method("acl", "Rule", "Allow")
@@ -418,6 +442,23 @@ func c07Rules(c *eng.Ctx) {
 		if !isF || eng.Origin(base) != ssa.Value(ruleAllow.Params[0]) {
 			c.Bad("R-C07-4", ruleAllow, call.Pos(), eng.CallStr(&call.Call), want2, "the predicate is not applied to a field of the receiver")
 			continue
+		}
+		if helper != nil && fr.Name == "Secret" {
+			// alternative form: compile(secs...).MatchString(secret), guarded for the empty list
+			okH := false
+			for _, r := range eng.Returns(cal) {
+				rv := eng.RetVals(r)
+				if mc, _ := eng.TupleCall(rv[0]); mc != nil && eng.CalleeIs(&mc.Call, "regexp", "*Regexp.MatchString") {
+					if hc, _ := eng.TupleCall(mc.Call.Args[0]); hc != nil && eng.Callee(&hc.Call) == helper.fn && eng.Origin(hc.Call.Args[0]) == ssa.Value(cal.Params[0]) && eng.Origin(mc.Call.Args[1]) == ssa.Value(ruleAllow.Params[2]) {
+						okH = true
+					}
+				}
+			}
+			if okH {
+				c.Ok("R-C07-4", cal, cal.Pos(), "secret predicate via "+eng.FName(helper.fn), "the rule's whole pattern list compiled into one anchored alternation, matched against the function's secret parameter")
+				sawSecret = true
+				continue
+			}
 		}
 		sum, ok := existsLoop(c, "R-C07-4", cal, want2)
 		if !ok || sum == nil {
@@ -509,6 +550,17 @@ func c07NoPanic(c *eng.Ctx) {
 				if al, isAl := x.X.(*ssa.Alloc); isAl {
 					if _, isConst := eng.ConstInt(x.Index); isConst && al != nil {
 						ok = true // varargs array literal
+					}
+				}
+				// a slice made with the loop's length, indexed by the loop's induction variable
+				if mk, isMk := eng.Origin(x.X).(*ssa.MakeSlice); isMk && !ok {
+					for _, l := range loops {
+						if x.Index != l.Idx {
+							continue
+						}
+						if args, isLen := eng.BuiltinCall(instrOf(eng.Origin(mk.Len)), "len"); isLen && (args[0] == l.Slice || eng.Same(args[0], l.Slice)) {
+							ok = true
+						}
 					}
 				}
 				if k, isConst := eng.ConstInt(x.Index); isConst && !ok {
